@@ -181,7 +181,7 @@ theorem decode_encode_aux (m : PMol) (h : WF m) (rest : List Nat) :
     have htake : (pairEnc true 0 (flatM m.atoms) ++ (orderEnc 0 0 (orderCodes m.atoms) ++ (ct ++ rest))).take (3 * F)
         = pairEnc true 0 (flatM m.atoms) := List.take_left' hpairs_len
     have h22 : ((2 : Nat) == 2) = true := rfl
-    simp only [decodeBonds, if_neg hl, hread, htake, hpairs_dec, if_pos h22]
+    simp only [decodeBonds, readOrderBytes, if_neg hl, hread, htake, hpairs_dec, if_pos h22]
     show rebuild [] [] (List.map stripNbrs m.atoms) (flatM m.atoms) (orderDec 0 0 (orderEnc 0 0 (orderCodes m.atoms))) = _
     rw [hpad]
     exact hreb
